@@ -45,7 +45,8 @@ import (
 
 func init() { Register("C19", Domain{Gen: c19Gen, Run: c19Run}) }
 
-const c19StepTimeout = 5 * time.Second
+// a wait ends on its event; the limit only matters for a request that really hangs (scaled by HX_TIMEOUT_SCALE)
+var c19StepTimeout = HxScale(12 * time.Second)
 
 // ---------------------------------------------------------------- generator
 
@@ -453,7 +454,7 @@ func (st *c19State) spawn(tn, k, v string) string {
 					continue // nobody inside: it must enter
 				}
 				// somebody is inside: it either enters at once (no mutex) or blocks for good
-				tm := time.After(200 * time.Millisecond)
+				tm := time.After(HxScale(300 * time.Millisecond))
 			wait:
 				for {
 					select {
@@ -524,7 +525,7 @@ func (st *c19State) stress(writers, nkeys, per int) string {
 	go func() { wg.Wait(); close(fin) }()
 	select {
 	case <-fin:
-	case <-time.After(60 * time.Second):
+	case <-time.After(HxScale(120 * time.Second)):
 		st.dead = true
 		return "timeout"
 	}
@@ -668,7 +669,7 @@ func c19Run(in *bufio.Scanner, w *bufio.Writer) {
 			continue
 		}
 		if st.dead {
-			fmt.Fprintln(w, "skip")
+			fmt.Fprintln(w, "err skip")
 			continue
 		}
 		switch {
